@@ -136,15 +136,15 @@ theorem verifyTimestamp_eq (i : Input) :
 /-- **expiry_fails_iff**: the expiry validation fails exactly when an expiry is present and the
 clock is not before it - `now = expiry` fails, `now = expiry - 1ns` passes -/
 theorem expiry_fails_iff (i : Input) :
-    (run i).expiryFailed = true ↔ ∃ e, i.expiry = some e ∧ ¬ (i.now < e) := by
-  simp only [run, verifyExpiry]
+    (runAccepted i).expiryFailed = true ↔ ∃ e, i.expiry = some e ∧ ¬ (i.now < e) := by
+  simp only [runAccepted, verifyExpiry]
   cases i.expiry with
   | none => simp
   | some e => simp
 
 /-- the same with `≤`: "a signature whose expiry time is not after the moment of verification" -/
 theorem expiry_fails_iff_le (i : Input) :
-    (run i).expiryFailed = true ↔ ∃ e, i.expiry = some e ∧ e ≤ i.now := by
+    (runAccepted i).expiryFailed = true ↔ ∃ e, i.expiry = some e ∧ e ≤ i.now := by
   rw [expiry_fails_iff]
   constructor <;> (rintro ⟨e, h1, h2⟩; exact ⟨e, h1, by omega⟩)
 
@@ -157,15 +157,15 @@ theorem expiry_boundary (e : Int) :
 exactly when every certificate's window contains the authentic signing time, ends included -
 whatever the clock, the policy's tsa stores, the verifyTimestamp option and the countersignature are -/
 theorem sa_pass_iff (i : Input) (hs : i.scheme = .signingAuthority) :
-    (run i).authTsFailed = false ↔ ∀ w ∈ i.chain, w.notBefore ≤ i.signingTime ∧ i.signingTime ≤ w.notAfter := by
-  simp only [run, verifyAuthenticTimestamp, hs, saLoop_eq]
+    (runAccepted i).authTsFailed = false ↔ ∀ w ∈ i.chain, w.notBefore ≤ i.signingTime ∧ i.signingTime ≤ w.notAfter := by
+  simp only [runAccepted, verifyAuthenticTimestamp, hs, saLoop_eq]
   rw [← all_contains_iff]
   simp
 
 /-- under notary.x509 the signed signing time plays no role -/
 theorem x509_ignores_signing_time (i : Input) (hs : i.scheme = .x509) (t : Int) :
-    (run { i with signingTime := t }).authTsFailed = (run i).authTsFailed := by
-  simp [run, verifyAuthenticTimestamp, hs, verifyTimestamp, verifyTimestampWith, Input.steps]
+    (runAccepted { i with signingTime := t }).authTsFailed = (runAccepted i).authTsFailed := by
+  simp [runAccepted, verifyAuthenticTimestamp, hs, verifyTimestamp, verifyTimestampWith, Input.steps]
 
 /-- when timestamp verification applies (`performTimestampVerification` stays true) -/
 theorem performs_iff (i : Input) :
@@ -178,9 +178,9 @@ theorem performs_iff (i : Input) :
 afterCertExpiry with an unexpired chain) the validation passes exactly when every certificate's
 window contains `now`, ends included -/
 theorem x509_no_tsa_pass_iff (i : Input) (hs : i.scheme = .x509) (hp : performs i = false) :
-    (run i).authTsFailed = false ↔ ∀ w ∈ i.chain, w.notBefore ≤ i.now ∧ i.now ≤ w.notAfter := by
+    (runAccepted i).authTsFailed = false ↔ ∀ w ∈ i.chain, w.notBefore ≤ i.now ∧ i.now ≤ w.notAfter := by
   rw [performs_eq] at hp
-  simp only [run, verifyAuthenticTimestamp, hs, verifyTimestamp_eq, hp]
+  simp only [runAccepted, verifyAuthenticTimestamp, hs, verifyTimestamp_eq, hp]
   rw [← all_contains_iff]
   simp
 
@@ -215,17 +215,17 @@ theorem tokenGood_iff (i : Input) : tokenGood i = true ↔ GoodCountersignature 
 
 /-- **x509_tsa_pass_sound**: when timestamp verification applies, a pass means a good countersignature -/
 theorem x509_tsa_pass_sound (i : Input) (hs : i.scheme = .x509) (hp : performs i = true)
-    (hpass : (run i).authTsFailed = false) : GoodCountersignature i := by
+    (hpass : (runAccepted i).authTsFailed = false) : GoodCountersignature i := by
   rw [performs_eq] at hp
-  simp only [run, verifyAuthenticTimestamp, hs, verifyTimestamp_eq, hp, if_true] at hpass
+  simp only [runAccepted, verifyAuthenticTimestamp, hs, verifyTimestamp_eq, hp, if_true] at hpass
   exact (tokenGood_iff i).1 (by simpa using hpass)
 
 /-- **x509_tsa_pass_complete**: and a good countersignature passes - in particular the clock plays
 no further role: certificates expired or not yet valid *now* do not matter -/
 theorem x509_tsa_pass_complete (i : Input) (hs : i.scheme = .x509) (hp : performs i = true)
-    (hg : GoodCountersignature i) : (run i).authTsFailed = false := by
+    (hg : GoodCountersignature i) : (runAccepted i).authTsFailed = false := by
   rw [performs_eq] at hp
-  simp only [run, verifyAuthenticTimestamp, hs, verifyTimestamp_eq, hp, if_true]
+  simp only [runAccepted, verifyAuthenticTimestamp, hs, verifyTimestamp_eq, hp, if_true]
   simp [(tokenGood_iff i).2 hg]
 
 /-- **afterCertExpiry_unexpired_uses_now**: with `verifyTimestamp: afterCertExpiry` and no
@@ -233,7 +233,7 @@ certificate expired (`now ≤ notAfter` for all - equality is still unexpired) t
 valid-now test, whether or not a tsa store is listed and whatever countersignature is attached -/
 theorem afterCertExpiry_unexpired_uses_now (i : Input) (hs : i.scheme = .x509)
     (ho : i.option = .afterCertExpiry) (hu : ∀ w ∈ i.chain, i.now ≤ w.notAfter) :
-    (run i).authTsFailed = false ↔ ∀ w ∈ i.chain, w.notBefore ≤ i.now ∧ i.now ≤ w.notAfter := by
+    (runAccepted i).authTsFailed = false ↔ ∀ w ∈ i.chain, w.notBefore ≤ i.now ∧ i.now ≤ w.notAfter := by
   apply x509_no_tsa_pass_iff i hs
   cases hp : performs i
   · rfl
@@ -246,13 +246,13 @@ theorem afterCertExpiry_unexpired_uses_now (i : Input) (hs : i.scheme = .x509)
 the countersignature decides -/
 theorem x509_tsa_pass_iff (i : Input) (hs : i.scheme = .x509) (hl : i.tsaListed = true)
     (ho : i.option ≠ .afterCertExpiry ∨ ∃ w ∈ i.chain, w.notAfter < i.now) :
-    (run i).authTsFailed = false ↔ GoodCountersignature i :=
+    (runAccepted i).authTsFailed = false ↔ GoodCountersignature i :=
   have hp := (performs_iff i).2 ⟨hl, ho⟩
   ⟨x509_tsa_pass_sound i hs hp, x509_tsa_pass_complete i hs hp⟩
 
 /-- no tsa store listed: the option and the countersignature are irrelevant -/
 theorem x509_without_tsa_store_uses_now (i : Input) (hs : i.scheme = .x509) (hl : i.tsaListed = false) :
-    (run i).authTsFailed = false ↔ ∀ w ∈ i.chain, w.notBefore ≤ i.now ∧ i.now ≤ w.notAfter := by
+    (runAccepted i).authTsFailed = false ↔ ∀ w ∈ i.chain, w.notBefore ≤ i.now ∧ i.now ≤ w.notAfter := by
   apply x509_no_tsa_pass_iff i hs
   cases hp : performs i
   · rfl
@@ -284,7 +284,7 @@ theorem range_boundaries (nb na t acc : Int) :
 /-! ### translation invariance
 
 The harness hands the instants to the model relative to an origin of its choosing (so that a case
-does not depend on the wall clock of the run that produced it).  That is legitimate because the
+does not depend on the wall clock of the runAccepted that produced it).  That is legitimate because the
 model only ever compares instants with each other: -/
 
 def Window.shift (d : Int) (w : Window) : Window := ⟨w.notBefore + d, w.notAfter + d⟩
@@ -326,7 +326,7 @@ theorem any_expired_shift (d now : Int) (ws : List Window) :
     apply decide_eq_decide.2; omega
 
 /-- **run_shift**: moving every instant by the same amount changes nothing -/
-theorem run_shift (d : Int) (i : Input) : run (i.shift d) = run i := by
+theorem run_shift (d : Int) (i : Input) : runAccepted (i.shift d) = runAccepted i := by
   have hexp : verifyExpiry (i.now + d) (i.expiry.map (· + d)) = verifyExpiry i.now i.expiry := by
     unfold verifyExpiry
     cases i.expiry with
@@ -349,13 +349,13 @@ theorem run_shift (d : Int) (i : Input) : run (i.shift d) = run i := by
       have hacc : accuracyNs (k.shift d) = accuracyNs k := rfl
       simp only [Option.map_some, hacc]
       simp only [Token.shift, all_containsRange_shift]
-  simp only [run, verifyAuthenticTimestamp, verifyTimestamp_eq, saLoop_eq, happ, hgood]
+  simp only [runAccepted, verifyAuthenticTimestamp, verifyTimestamp_eq, saLoop_eq, happ, hgood]
   simp only [Input.shift, hexp, all_contains_shift]
 
 /-! ### the whole property -/
 
-/-- **C06**: every clause of `Holds` is true of the model's behaviour -/
-theorem model_holds (i : Input) : Holds i (run i) = true := by
+/-- the clauses for accepted statements hold of what the verifier does with an accepted statement -/
+theorem accepted_holds (i : Input) : (clausesAccepted i (runAccepted i)).holds = true := by
   have he : verifyExpiry i.now i.expiry = expired i := by
     unfold verifyExpiry expired
     cases i.expiry with
@@ -366,7 +366,7 @@ theorem model_holds (i : Input) : Holds i (run i) = true := by
         simp [h, this]
       · have : e ≤ i.now := by omega
         simp [h, this]
-  unfold Holds clauses run
+  unfold clausesAccepted runAccepted
   simp only [Clauses.holds, he, verifyAuthenticTimestamp]
   cases hs : i.scheme
   · -- x509
@@ -386,6 +386,36 @@ theorem model_holds (i : Input) : Holds i (run i) = true := by
     generalize expired i = e
     cases a <;> cases g <;> cases vn <;> cases vs <;> cases e <;> decide
 
+theorem holds_map_or_true (cl : Clauses) : Clauses.holds (cl.map (fun c => (c.1, true || c.2))) = true := by
+  induction cl with
+  | nil => rfl
+  | cons c rest ih => simpa [Clauses.holds] using ih
+
+theorem holds_map_or_false (cl : Clauses) : Clauses.holds (cl.map (fun c => (c.1, false || c.2))) = Clauses.holds cl := by
+  induction cl with
+  | nil => rfl
+  | cons c rest ih => simp only [Clauses.holds] at ih ⊢; simp [ih]
+
+/-- **C06**: every clause of `Holds` is true of the model's behaviour - for refused statements (nothing is claimed
+but that only a non-canonical spelling is refused) and for accepted ones -/
+theorem model_holds (i : Input) : Holds i (run i) = true := by
+  unfold Holds clauses run
+  by_cases h : refusedByValidation i = true
+  · simp only [h, if_true, Clauses.holds_cons, Bool.not_true, Bool.false_or, Bool.true_and]
+    exact holds_map_or_true _
+  · have h' : refusedByValidation i = false := by simpa using h
+    simp only [h', Bool.false_eq_true, if_false, Clauses.holds_cons]
+    have hr : (runAccepted i).refused = false := rfl
+    rw [hr]
+    simp only [Bool.not_false, Bool.true_or, Bool.true_and]
+    rw [holds_map_or_false]
+    exact accepted_holds i
+
+/-- a statement whose store types are spelled canonically is never refused, and then the verifier behaves as `runAccepted` -/
+theorem canonical_runs (i : Input) (h1 : i.tsaTypeSpelling = .canonical) (h2 : i.signingTypeSpelling = .canonical) :
+    run i = runAccepted i := by
+  simp [run, refusedByValidation, h1, h2]
+
 /-! ### non-vacuity -/
 
 private def w (a b : Int) : Window := ⟨a, b⟩
@@ -393,44 +423,57 @@ private def goodToken : Token :=
   { parses := true, imprintMatches := true, genTime := 50, accSeconds := 0, accMillis := 0, accMicros := 0,
     baselinePolicy := false, tsaRootListed := true, tsaCertOk := true, chainRulesOk := true }
 private def obs (ev e a : Bool) : Obs :=
-  { evaluated := ev, expiryFailed := e, authTsFailed := a, tsaRevocationArgsOk := true, signingRevocationArgsOk := true }
+  { refused := false, evaluated := ev, expiryFailed := e, authTsFailed := a, tsaRevocationArgsOk := true,
+    signingRevocationArgsOk := true }
 private def base : Input :=
   { now := 100, scheme := .x509, signingTime := 10, expiry := some 101, chain := [w 0 200, w 0 300],
     tsaListed := false, option := .unset, token := none, tsaStoresLoad := true, tsaStoresNonEmpty := true,
-    tsaRevocationError := false, tsaRevocation := [.ok, .ok], tsaChainLen := 2 }
+    tsaRevocationError := false, tsaRevocation := [.ok, .ok], tsaChainLen := 2,
+    tsaTypeSpelling := .canonical, signingTypeSpelling := .canonical }
 
 -- valid now, unexpired: both pass
-example : run base = (obs true false false) := by decide
+example : runAccepted base = (obs true false false) := by decide
 -- expiry equal to the clock fails
-example : (run { base with expiry := some 100 }).expiryFailed = true := by decide
+example : (runAccepted { base with expiry := some 100 }).expiryFailed = true := by decide
 -- an expired certificate fails without timestamping ...
-example : (run { base with chain := [w 0 200, w 0 99] }).authTsFailed = true := by decide
+example : (runAccepted { base with chain := [w 0 200, w 0 99] }).authTsFailed = true := by decide
 -- ... and passes with a good countersignature inside both windows, under afterCertExpiry
-example : (run { base with chain := [w 0 200, w 0 99], tsaListed := true, option := .afterCertExpiry,
-                           token := some goodToken }).authTsFailed = false := by decide
+example : (runAccepted { base with chain := [w 0 200, w 0 99], tsaListed := true, option := .afterCertExpiry,
+                                   token := some goodToken }).authTsFailed = false := by decide
 -- the same token timed outside a window fails
-example : (run { base with chain := [w 0 200, w 60 99], tsaListed := true, option := .always,
-                           token := some goodToken }).authTsFailed = true := by decide
+example : (runAccepted { base with chain := [w 0 200, w 60 99], tsaListed := true, option := .always,
+                                   token := some goodToken }).authTsFailed = true := by decide
 -- a revoked TSA certificate fails
-example : (run { base with tsaListed := true, token := some goodToken, tsaRevocation := [.ok, .revoked] }).authTsFailed = true := by decide
+example : (runAccepted { base with tsaListed := true, token := some goodToken, tsaRevocation := [.ok, .revoked] }).authTsFailed = true := by decide
 -- signing authority looks at the signing time only
-example : (run { base with scheme := .signingAuthority, now := 1000, signingTime := 200 }).authTsFailed = false := by decide
-example : (run { base with scheme := .signingAuthority, now := 100, signingTime := 201 }).authTsFailed = true := by decide
+example : (runAccepted { base with scheme := .signingAuthority, now := 1000, signingTime := 200 }).authTsFailed = false := by decide
+example : (runAccepted { base with scheme := .signingAuthority, now := 100, signingTime := 201 }).authTsFailed = true := by decide
 -- `Holds` rejects wrong observations
 example : Holds { base with expiry := some 100 } (obs true false false) = false := by decide
 example : Holds { base with chain := [w 0 200, w 0 99] } (obs true false false) = false := by decide
 example : Holds { base with tsaListed := true } (obs true false false) = false := by decide
 example : Holds { base with scheme := .signingAuthority, signingTime := 201 } (obs true false false) = false := by decide
 -- a result vector that does not have one entry per TSA certificate fails, even if every entry is OK
-example : (run { base with tsaListed := true, token := some goodToken, tsaRevocation := [.ok] }).authTsFailed = true := by decide
-example : (run { base with tsaListed := true, token := some goodToken, tsaRevocation := [.ok, .ok, .ok] }).authTsFailed = true := by decide
-example : (run { base with tsaListed := true, token := some goodToken }).authTsFailed = false := by decide
+example : (runAccepted { base with tsaListed := true, token := some goodToken, tsaRevocation := [.ok] }).authTsFailed = true := by decide
+example : (runAccepted { base with tsaListed := true, token := some goodToken, tsaRevocation := [.ok, .ok, .ok] }).authTsFailed = true := by decide
+example : (runAccepted { base with tsaListed := true, token := some goodToken }).authTsFailed = false := by decide
 -- an outcome without the two results does not satisfy the property
 example : Holds base (obs false false false) = false := by decide
 -- a TSA revocation check that was handed an authentic signing time, or the wrong chain, does not satisfy the property
 example : Holds base { obs true false false with tsaRevocationArgsOk := false } = false := by decide
 example : Holds base { obs true false false with signingRevocationArgsOk := false } = false := by decide
+example : Holds base (runAccepted base) = true := by decide
 example : Holds base (run base) = true := by decide
+-- a statement that spells "TSA:x" is refused by today's policy validation: nothing to verify, nothing claimed ...
+example : (run { base with tsaListed := true, tsaTypeSpelling := .otherCase }).refused = true := by decide
+example : Holds { base with tsaListed := true, tsaTypeSpelling := .otherCase }
+    (run { base with tsaListed := true, tsaTypeSpelling := .otherCase }) = true := by decide
+-- ... but a verifier that ACCEPTS it must treat the entry as the tsa store it is: passing without countersignature
+-- because "no tsa store is configured" does not satisfy the property
+example : Holds { base with tsaListed := true, tsaTypeSpelling := .otherCase } (obs true false false) = false := by decide
+example : Holds { base with tsaListed := true, tsaTypeSpelling := .otherCase } (obs true false true) = true := by decide
+-- and a canonically spelled statement must not be refused
+example : Holds base { obs false false false with refused := true } = false := by decide
 
 /-! ### tie to the translated source
 
